@@ -25,6 +25,9 @@
 #include <parmcb/util.hpp>
 #include <parmcb/sptrees.hpp>
 #include <parmcb/detail/cycles.hpp>
+#ifdef PARMCB_VERIF
+#include <parmcb/detail/verif_hooks.hpp>
+#endif
 
 namespace parmcb {
 
@@ -76,6 +79,9 @@ namespace parmcb {
                 return a.weight() < b.weight();
             });
         }
+#ifdef PARMCB_VERIF
+        parmcb::verif::report_candidates(g, trees, cycles, forest_index);
+#endif
         ShortestOddCycleLookup<Graph, WeightMap, ParallelUsingTBB> cycle_lookup(g, weight_map, trees, cycles,
                 sorted_cycles);
         trees_timer.stop();
